@@ -250,6 +250,11 @@ def run(ctx):
         groups += [g for g in core if g not in groups]
         core2 = [g for g in groups_all if g[1] in ('l', 'ls', 'e', 'l[*]', 's') and g[3] == 'in' and g[4] in ('[[1, 5, 9], [2]]', '[[7], [8, 9]]', '[["a", "ab"], []]')]
         groups += [g for g in core2 if g not in groups]
+        # always: `in` against a QUERY on the right that selects a list from the document (or its members), for left-hand sides that are
+        # members, non-members, a list of members, a whole list
+        core3 = [g for g in groups_all if g[3] == 'in' and g[4] in ('l', 'l[*]', 'lm[*].k', '%qv', 's')
+                 and g[1] in ('s', 't', 'f', 'l[0]', 'm.k', 'lm[*].k', 'l[*]', 'l', '%qv', '%lit', '%lv')]
+        groups += [g for g in core3 if g not in groups]
     n, dist = run_groups(ctx, groups, 'c03')
     n3, dist3 = run_groups(ctx, random_groups(ctx, 400 if ctx.tier == 'quick' else 3000), 'c03rnd')
     ctx.coverage['random_clause_groups'] = n3
